@@ -158,9 +158,11 @@ class Builder:
     def _module(self, m: str, kind: str, directory: str, stem: str, extra: str = ""):
         """Write module `m` of `kind` as <directory>/<stem>.<suffix>."""
         os.makedirs(directory, exist_ok=True)
-        if kind == "py":
+        if kind in ("py", "both"):
             path = os.path.join(directory, stem + ".py")
             self._write(path, self._code(m, extra))
+            if kind == "both":          # the stub file next to the source
+                self._write(os.path.join(directory, stem + ".pyi"), STUB)
         elif kind == "pyi":
             path = os.path.join(directory, stem + ".pyi")
             self._write(path, STUB + extra)
